@@ -1,11 +1,11 @@
 """C09 — application answers go only to the requesting connection, at most once (Mon_C09.tla)"""
 from . import nodecommon as nc
-from .c09_plan import PROFILE, plans, ASSUME
+from .c09_plan import PROFILE, plans, ASSUME, enum_plans
 
 
 def run(tier, seed):
     mc, sim = plans(tier)
-    ck = nc.run_property("C09", tier, seed, "Inv09", PROFILE, mc, sim, 1500 if tier == "thorough" else 240, ASSUME)
+    ck = nc.run_property("C09", tier, seed, "Inv09", PROFILE, mc, sim, 1500 if tier == "thorough" else 240, ASSUME, enum_plan=enum_plans(tier))
     return ck.finish()
 
 
